@@ -224,9 +224,9 @@ func cmdCheck(args []string) int {
 		return 2
 	}
 	loadS := time.Since(t0).Seconds()
-	cfg := SolveConfig{QuickS: 4, SlowS: 20, Workers: 16}
+	cfg := SolveConfig{QuickS: 4, SlowS: 20, Workers: 16, BudgetS: 150}
 	if *tier == "thorough" {
-		cfg = SolveConfig{QuickS: 10, SlowS: 60, Workers: 16, Thorough: true}
+		cfg = SolveConfig{QuickS: 10, SlowS: 60, Workers: 16, Thorough: true, BudgetS: 1200}
 	}
 	replayDir := filepath.Join(verifDir, "evidence", "replay", *prop)
 	if *outDir != "" {
@@ -286,7 +286,12 @@ func report(res *CheckResult, p *Program, repo, tier string, seed int, evidenceP
 	violations := 0
 	var knownPrinted []string
 	var violLines []string
+	budgetHit := 0
 	for _, o := range failed {
+		if o.Solver == "budget" {
+			budgetHit++
+			continue
+		}
 		// known (open) findings suppress exactly the listed obligation
 		matched := false
 		for _, k := range known {
@@ -323,6 +328,9 @@ func report(res *CheckResult, p *Program, repo, tier string, seed int, evidenceP
 	// obligation count must not shrink below the committed minimum on a tree where everything else is fine
 	if bl.MinObligations > 0 && total < bl.MinObligations && len(undecided) == 0 {
 		undecided = append(undecided, fmt.Sprintf("only %d obligations generated, committed minimum is %d (contracts or anchors were lost)", total, bl.MinObligations))
+	}
+	if budgetHit > 0 {
+		undecided = append(undecided, fmt.Sprintf("%d obligations were not tried: the time budget of the check was exhausted (path explosion on this tree?)", budgetHit))
 	}
 	for _, l := range knownPrinted {
 		fmt.Println(l)
